@@ -15,6 +15,7 @@ Lines:
   `aug <asIs|fixed> <ia> <ga>`    get_aug_config
   `backbone <a>` `head <a>` `lrs <a>`
   `data <asIs|fixed> <args>` `model <args>` `modelraw <args>` `trainer <args>`
+  `assign <Class> <field> <kwargs> <value>`   construct, then `obj.field = value`; answers the field's value afterwards
   `train <args>`                  the config `train()` hands to run_training
   `mk <Class> <kwargs>`           attrs constructor + validators
   `which <name|value> <Class> <kwargs> <assignments>`   construct, assign attributes in order (a node whose
@@ -145,6 +146,10 @@ def step (s : St) (line : String) : St × String :=
   | "trainer" :: rest =>
     match runP pCfg rest with
     | some a => (s, out (getTrainerConfig s.env (argsOf a)))
+    | none => (s, "bad-op")
+  | "assign" :: c :: f :: rest =>
+    match runP (do let kw ← pCfg; let v ← pCfg; pure (kw, v)) rest with
+    | some (kw, v) => (s, out (assignAfter s.env c (argsOf kw) f v))
     | none => (s, "bad-op")
   | "train" :: rest =>
     match runP pCfg rest with
